@@ -1,14 +1,246 @@
 (** C13 — weighted-sample statistics and the mixture proposal obey their definitions.
-    Model: Num/Quantile.v.  Proofs: Proofs/C13_*.v.  This file only states the theorems. *)
-From Coq Require Import List ZArith QArith Bool Arith.
-From Elfi Require Import Num.Quantile Proofs.C13_Rvs.
+    Model: Num/Quantile.v ([wsq_idx] = weighted_sample_quantile with the argsort as an oracle,
+    [normalize_weights], [compute_ess], [wvar_rows]/[weighted_var], [gm_pdf], [rvs]).
+    Proofs: Proofs/C13_Quantile.v, C13_Stats.v, C13_Rvs.v.  This file only states the theorems. *)
+From Coq Require Import List ZArith QArith Qabs Bool Arith Permutation Sorted.
+From Elfi Require Import Num.Quantile Proofs.C13_Quantile Proofs.C13_Stats Proofs.C13_Rvs.
 Import ListNotations.
+Open Scope Q_scope.
+
+(** * weighted_sample_quantile *)
+
+(** For every sample, non-negative weights with positive sum, alpha in [0,1] and every argsort
+    result (any permutation of the indices that sorts the values, i.e. every tie-breaking order):
+    the call returns a value q that is an element of the sample, the normalised weight of
+    {x <= q} is at least alpha and the normalised weight of {x < q} is at most alpha. *)
+Theorem C13_quantile_spec :
+  forall (xs w : list Q) index alpha,
+    length w = length xs -> Forall (Qle 0) w -> 0 < qsum w ->
+    sorting_perm index xs -> 0 <= alpha -> alpha <= 1 ->
+    exists q, wsq_idx index xs alpha (Some w) = Some q /\ In q xs /\
+              alpha <= wle q (combine xs w) / qsum w /\ wlt q (combine xs w) / qsum w <= alpha.
+Proof. intros xs w index alpha Hl Hw Hs. exact (quantile_spec xs w Hl Hw Hs index alpha). Qed.
+Print Assumptions C13_quantile_spec.
+
+(** [weights=None] is the all-ones weight vector. *)
+Theorem C13_quantile_equal_weights :
+  forall index xs alpha, length index = length xs ->
+    wsq_idx index xs alpha None = wsq_idx index xs alpha (Some (ones xs)).
+Proof. exact wsq_idx_none. Qed.
+Print Assumptions C13_quantile_equal_weights.
+
+(** The value does not depend on the order the argsort gives to equal values. *)
+Theorem C13_quantile_tie_independent :
+  forall (xs w : list Q) index index' alpha q q',
+    length w = length xs -> Forall (Qle 0) w -> 0 < qsum w ->
+    sorting_perm index xs -> sorting_perm index' xs -> 0 <= alpha -> alpha <= 1 ->
+    wsq_idx index xs alpha (Some w) = Some q -> wsq_idx index' xs alpha (Some w) = Some q' -> q == q'.
+Proof. intros xs w index index' alpha q q' Hl Hw Hs. exact (quantile_tie_independent xs w Hl Hw Hs index index' alpha q q'). Qed.
+Print Assumptions C13_quantile_tie_independent.
+
+(** Monotone in alpha. *)
+Theorem C13_quantile_monotone :
+  forall (xs w : list Q) index index' a1 a2 q1 q2,
+    length w = length xs -> Forall (Qle 0) w -> 0 < qsum w ->
+    sorting_perm index xs -> sorting_perm index' xs -> 0 <= a1 -> a1 <= a2 -> a2 <= 1 ->
+    wsq_idx index xs a1 (Some w) = Some q1 -> wsq_idx index' xs a2 (Some w) = Some q2 -> q1 <= q2.
+Proof. intros xs w index index' a1 a2 q1 q2 Hl Hw Hs. exact (quantile_monotone xs w Hl Hw Hs index index' a1 a2 q1 q2). Qed.
+Print Assumptions C13_quantile_monotone.
+
+(** Invariant under w -> c*w, c > 0. *)
+Theorem C13_quantile_scale_invariant :
+  forall (xs w : list Q) index index' c alpha q q',
+    length w = length xs -> Forall (Qle 0) w -> 0 < qsum w ->
+    sorting_perm index xs -> sorting_perm index' xs -> 0 < c -> 0 <= alpha -> alpha <= 1 ->
+    wsq_idx index xs alpha (Some w) = Some q ->
+    wsq_idx index' xs alpha (Some (map (Qmult c) w)) = Some q' -> q == q'.
+Proof. intros xs w index index' c alpha q q' Hl Hw Hs. exact (quantile_scale_invariant xs w Hl Hw Hs index index' c alpha q q'). Qed.
+Print Assumptions C13_quantile_scale_invariant.
+
+(** The oracle hypothesis is satisfiable for every sample: the executable model's own stable
+    insertion argsort is a sorting permutation, and so is every index list that passes the
+    boolean test applied to numpy's recorded argsort. *)
+Theorem C13_argsort_sorting : forall xs, sorting_perm (argsort xs) xs.
+Proof. exact argsort_sorting. Qed.
+Print Assumptions C13_argsort_sorting.
+
+Theorem C13_is_sorting_perm_sound :
+  forall index xs, is_sorting_perm index xs = true -> sorting_perm index xs.
+Proof. exact is_sorting_perm_sound. Qed.
+Print Assumptions C13_is_sorting_perm_sound.
+
+(** The decidable statement evaluated on the implementation's answers is sound for the
+    property (with slack [tol]; [tol = 0] on exactly representable inputs) ... *)
+Theorem C13_ok_sound :
+  forall tol xw alpha q, 0 < wtot xw -> quant_ok tol xw alpha q = true ->
+    (exists p, In p xw /\ fst p == q) /\
+    alpha - tol <= wle q xw / wtot xw /\ wlt q xw / wtot xw <= alpha + tol.
+Proof. exact quant_ok_sound. Qed.
+Print Assumptions C13_ok_sound.
+
+(** ... and the model's own answer satisfies it with no slack. *)
+Theorem C13_model_ok :
+  forall index xs w alpha q,
+    sorting_perm index xs -> length w = length xs -> Forall (Qle 0) w -> 0 < qsum w ->
+    0 <= alpha -> alpha <= 1 ->
+    wsq_idx index xs alpha (Some w) = Some q -> quant_ok 0 (combine xs w) alpha q = true.
+Proof. exact quant_model_ok. Qed.
+Print Assumptions C13_model_ok.
+
+(** * normalize_weights, compute_ess *)
+Theorem C13_normalize_weights :
+  forall ws nw, normalize_weights ws = Some nw ->
+    qsum nw == 1 /\ Forall (Qle 0) nw /\ Forall2 (fun w u => u * qsum ws == w) ws nw.
+Proof. exact normalize_weights_spec. Qed.
+Print Assumptions C13_normalize_weights.
+
+Theorem C13_normalize_weights_defined :
+  forall ws, Forall (Qle 0) ws -> 0 < qsum ws -> exists nw, normalize_weights ws = Some nw.
+Proof. exact normalize_weights_defined. Qed.
+Print Assumptions C13_normalize_weights_defined.
+
+(** ESS = (sum w)^2 / sum w^2 of the unnormalised weights. *)
+Theorem C13_ess :
+  forall ws e, compute_ess ws = Some e -> e == sq (qsum ws) / qsum (map sq ws).
+Proof. exact compute_ess_spec. Qed.
+Print Assumptions C13_ess.
+
+(** * weighted_var *)
+(** equals the reliability-weights unbiased estimator
+    sum v_i (x_i - mu)^2 / (1 - sum v_i^2), v_i = w_i / sum w, mu = sum v_i x_i *)
+Theorem C13_var_reliability : forall xw v, wvar_rows xw = Some v -> v == spec_var xw.
+Proof. exact weighted_var_reliability. Qed.
+Print Assumptions C13_var_reliability.
+
+(** with equal weights: the usual unbiased sample variance sum (x - mean)^2 / (n - 1) *)
+Theorem C13_var_equal_weights :
+  forall xw c v, Forall (fun p => snd p == c) xw -> wvar_rows xw = Some v ->
+    let n := inject_Z (Z.of_nat (length xw)) in
+    let mean := qsum (map fst xw) / n in
+    v == qsum (map (fun p => sq (fst p - mean)) xw) / (n - 1).
+Proof. exact weighted_var_equal_weights. Qed.
+Print Assumptions C13_var_equal_weights.
+
+Theorem C13_var_equal_weights_defined :
+  forall xw c, Forall (fun p => snd p == c) xw -> 0 < c -> (2 <= length xw)%nat ->
+    exists v, wvar_rows xw = Some v.
+Proof. exact weighted_var_equal_defined. Qed.
+Print Assumptions C13_var_equal_weights_defined.
+
+Theorem C13_var_scale_invariant :
+  forall xw c v v', ~ c == 0 -> wvar_rows xw = Some v ->
+    wvar_rows (map (fun p => (fst p, c * snd p)) xw) = Some v' -> v == v'.
+Proof. exact weighted_var_scale_invariant. Qed.
+Print Assumptions C13_var_scale_invariant.
+
+(** decidable statements for normalize/ess/var: sound, and satisfied by the model *)
+Theorem C13_stat_ok_sound :
+  forall xs w tol i_norm i_ess i_var,
+    wf_stat_w w = true -> ok_stat xs (Some w) tol i_norm i_ess i_var = true ->
+    exists nw e, i_norm = Some nw /\ i_ess = Some e /\
+      Qabs (1 - qsum nw) <= tol * (1 + Qabs 1) /\ Forall (Qle 0) nw /\
+      Qabs (spec_ess w - e) <= tol * (1 + Qabs (spec_ess w)).
+Proof. exact ess_ok_sound. Qed.
+Print Assumptions C13_stat_ok_sound.
+
+Theorem C13_var_ok_sound :
+  forall xs w tol i_norm i_ess i_var,
+    length w = length xs -> wf_stat_w w = true -> var_defined (combine xs w) = true ->
+    ok_stat xs (Some w) tol i_norm i_ess i_var = true ->
+    exists v, i_var = Some v /\
+      Qabs (spec_var (combine xs w) - v) <= tol * (1 + Qabs (spec_var (combine xs w))).
+Proof. exact var_ok_sound. Qed.
+Print Assumptions C13_var_ok_sound.
+
+Theorem C13_stat_model_ok :
+  forall xs w tol, 0 <= tol -> length w = length xs ->
+    ok_stat xs (Some w) tol (normalize_weights w) (compute_ess w) (weighted_var xs (Some w)) = true.
+Proof. exact stat_model_ok. Qed.
+Print Assumptions C13_stat_model_ok.
+
+(** * GMDistribution *)
+(** pdf(x) = sum_i (w_i / sum w) * N(x; m_i, C) for every normal-density function [Nd] *)
+Theorem C13_gm_pdf :
+  forall (X M : Type) (Nd : X -> M -> Q) x means w p,
+    gm_pdf_at X M Nd x means (Some w) = Some p ->
+    p == qsum (map (fun wm => fst wm / qsum w * Nd x (snd wm)) (combine w means)).
+Proof. exact gm_pdf_at_spec. Qed.
+Print Assumptions C13_gm_pdf.
+
+Theorem C13_gm_pdf_table :
+  forall dens ws p, gm_pdf dens ws = Some p -> p == spec_pdf dens (weights_of ws dens).
+Proof. exact gm_pdf_spec. Qed.
+Print Assumptions C13_gm_pdf_table.
+
+Theorem C13_gm_pdf_defined_nonneg :
+  forall dens ws, Forall (Qle 0) (weights_of ws dens) -> 0 < qsum (weights_of ws dens) ->
+    Forall (Qle 0) dens -> exists p, gm_pdf dens ws = Some p /\ 0 <= p.
+Proof.
+  intros dens ws Hw Hs Hd. destruct (gm_pdf_defined dens ws Hw Hs) as [p Hp].
+  exists p. split; [exact Hp | now apply (gm_pdf_nonneg dens ws)].
+Qed.
+Print Assumptions C13_gm_pdf_defined_nonneg.
+
+(** logpdf = log(pdf) for every function [ln] *)
+Theorem C13_gm_logpdf :
+  forall (X M : Type) (Nd : X -> M -> Q) (ln : Q -> Q) x means ws,
+    gm_logpdf_at X M Nd ln x means ws = option_map ln (gm_pdf_at X M Nd x means ws).
+Proof. exact gm_logpdf_at_spec. Qed.
+Print Assumptions C13_gm_logpdf.
+
+Theorem C13_gm_pdf_model_ok :
+  forall dens ws tol p, 0 <= tol -> gm_pdf dens ws = Some p ->
+    close tol (spec_pdf dens (weights_of ws dens)) p = true.
+Proof. exact pdf_model_ok. Qed.
+Print Assumptions C13_gm_pdf_model_ok.
 
 (** The constrained sampler returns exactly [size] rows, all satisfying the constraint, for every
-    stream of proposal batches and every fuel on which it finishes. *)
+    constraint, every stream of proposal batches and every fuel on which the loop finishes. *)
 Theorem C13_rvs_size_and_constraint :
   forall (X : Type) (valid : X -> bool) (draw : nat -> nat -> list X) fuel size out,
     rvs X valid draw fuel size = Some out ->
     length out = size /\ Forall (fun x => valid x = true) out.
 Proof. exact rvs_spec. Qed.
 Print Assumptions C13_rvs_size_and_constraint.
+
+(** non-vacuity of the previous theorem: a fully valid first batch ends the loop *)
+Theorem C13_rvs_live :
+  forall (X : Type) (valid : X -> bool) (draw : nat -> nat -> list X) size,
+    length (draw 0%nat size) = size -> forallb valid (draw 0%nat size) = true ->
+    rvs X valid draw 2 size = Some (draw 0%nat size).
+Proof. exact rvs_live. Qed.
+Print Assumptions C13_rvs_live.
+
+Theorem C13_rvs_ok_sound :
+  forall size box o, ok_rvs size box (Some o) = true ->
+    length o = size /\ Forall (fun x => in_box box x = true) o.
+Proof. exact rvs_ok_sound. Qed.
+Print Assumptions C13_rvs_ok_sound.
+
+(** * non-vacuity: concrete states *)
+(** unsorted sample with a tie and a zero weight; alpha on a cumulative boundary (1/2), off it,
+    0 and 1; the hypotheses of the quantile theorems hold for it *)
+Example C13_example_quantile :
+  let xs := [3; 1; 2; 2; 5] in let w := [1; 1; 0; 2; 4] in
+  map (fun a => wsq xs a (Some w)) [0; 1#8; 1#4; 1#2; 9#16; 1]
+  = [Some 1; Some 1; Some 2; Some 3; Some 5; Some 5]
+  /\ length w = length xs /\ forallb (Qle_bool 0) w = true /\ Qltb 0 (qsum w) = true
+  /\ is_sorting_perm [1; 3; 2; 0; 4]%nat xs = true /\ is_sorting_perm (argsort xs) xs = true
+  /\ wsq_idx [1; 3; 2; 0; 4]%nat xs (1#4) (Some w) = wsq xs (1#4) (Some w).
+Proof. vm_compute. repeat split; reflexivity. Qed.
+
+Example C13_example_stats :
+  compute_ess [1; 1; 0; 2] = Some (8 # 3)
+  /\ weighted_var [3; 1; 2; 2] (Some [1; 1; 0; 2]) = Some (4 # 5)
+  /\ weighted_var [3; 1; 2; 2] None = Some (2 # 3)
+  /\ gm_pdf [1 # 2; 1 # 4] (Some [1; 3]) = Some (5 # 16).
+Proof. vm_compute. repeat split; reflexivity. Qed.
+
+(** an accept loop that needs four trials (valid = "< 10") *)
+Example C13_example_rvs :
+  rvs nat (fun x => x <? 10)%nat
+      (fun t n => firstn n (nth t [[1; 20; 30; 2]; [40; 50]; [3; 60]; [4; 5]] []))%nat 10 4
+  = Some [1; 2; 3; 4]%nat.
+Proof.
+  vm_compute. reflexivity.
+Qed.
